@@ -275,3 +275,5 @@ B("c07-tetris-padded-cols", "C07", "C07.R2", (P + "tetris/env.py", "Tetris.__ini
 B("c15-gym-seed-truthiness", "C15", "C15.R1", (W, "JumanjiToGymWrapper.reset", "expr", "seed is not None", "seed"))
 B("c15-obs-float32", "C15", "C15.R3", (W, "jumanji_to_gym_obs", "expr", "np.asarray(observation)", "np.asarray(observation, dtype=np.float32)"))
 B("c01-maze-count-bound-area", "C01", "C01.R3", (R + "maze/env.py", "Maze.observation_spec", "expr", "specs.Array((), jnp.int32, 'step_count')", "specs.BoundedArray((), jnp.int32, 0, self.num_rows * self.num_cols, 'step_count')"))
+B("c10-connector-two-draws", "C10", "C10.R2", (R + "connector/generator.py", "UniformRandomGenerator.__call__", "replace_stmt", "starts_flat, targets_flat = jax.random.choice(", "cells = jnp.arange(self.grid_size ** 2)\nstarts_flat = jax.random.choice(pos_key, cells, (self.num_agents,), replace=False)\ntargets_flat = jax.random.choice(key, cells, (self.num_agents,), replace=False)"))
+B("c04-flatpack-meshgrid-order", "C04", "C04.R7", (P + "flat_pack/env.py", "FlatPack._make_action_mask", "expr", "jnp.meshgrid(jnp.arange(num_blocks), jnp.arange(num_rotations), jnp.arange(num_placement_rows), jnp.arange(num_placement_cols), indexing='ij')", "jnp.meshgrid(jnp.arange(num_blocks), jnp.arange(num_rotations), jnp.arange(num_placement_cols), jnp.arange(num_placement_rows), indexing='ij')"))
